@@ -14,7 +14,7 @@ C10 line-protocol driver.  ops:
   sfx <hex>                         getSuffix
   trunc <int> <size> <signed>       truncateIntValue
   minmax <bits> <unsigned>          getMinMaxValues
-  const <int> <unsigned> <size> <bits|-1>   literal branch of valueFlowSetConstantValue
+  const <int> <cchar> <u|s|-> <charbit> <unsigned> <size> <bits|-1>   literal branch of valueFlowSetConstantValue
   lit <sign> <base> <upper> <hexdigits> <hexsuffix>   SPEC: well-formedness, spelling and value of a literal
   clit <kind> <elem>*               SPEC: well-formedness, spelling and value of a character literal
   plat <name>                       platform record (generated table)
@@ -120,13 +120,14 @@ def step (line : String) : String :=
       | some (lo, hi) => s!"{lo} {hi}"
       | none => "none"
     | none => "bad-op"
-  | ["const", v, u, n, bits] =>
-    match v.toInt?, n.toNat?, bits.toInt? with
-    | some v, some n, some bits =>
-      match constValue v (u == "1") n (if bits < 0 then none else some bits.toNat) with
+  | ["const", v, cc, cs, cb, u, n, bits] =>
+    match v.toInt?, cb.toNat?, n.toNat?, bits.toInt? with
+    | some v, some cb, some n, some bits =>
+      let sign : Option Bool := if cs == "u" then some true else if cs == "s" then some false else none
+      match constValue v (cc == "1") sign cb (u == "1") n (if bits < 0 then none else some bits.toNat) with
       | some r => toString r
       | none => "novalue"
-    | _, _, _ => "bad-op"
+    | _, _, _, _ => "bad-op"
   | ["lit", sg, bs, up, dh, sh] =>
     match signOf sg, baseOf bs, fromHex dh, fromHex sh with
     | some sg, some bs, some ds, some suf =>
